@@ -18,6 +18,13 @@
 //	tbl raw 1   <damaged file> <off> <len>                           expect: corrupt   (one byte of a checksummed
 //	            block altered; the model's readRawBlock with verification must reject the block)
 //	tbl read    … <damaged file> …                                   expect: what the cache-less reader answers
+//	tbl biter   <cmp> <ri> <block> [s:<start>:<limit>:<incl>] <move> …   expect: what the REAL table.blockIter answers to a
+//	            random walk (First/Last/Seek/Next/Prev, runs past both ends, Prev after Seek, Next after Last …) over
+//	            that block: the index block (restart interval 1, inclLimit = true) and the first / last / a sought
+//	            data block, unsliced and sliced with a util.Range.  blockIter is unexported: the generator takes the
+//	            `index` field of the iterator that Reader.NewIterator returns (reflect + unsafe, read-only) — an
+//	            IteratorIndexer whose embedded *blockIter walks the index block and whose Get() hands out fresh
+//	            data-block blockIters.  On single-block tables the walk is also made through the public iterator alone.
 //
 // Implementation-side oracles (no model involved), reported through Sink.Violate:
 //   - reader with block cache + buffer pool answers exactly like the reader without,
@@ -37,9 +44,11 @@ import (
 	"encoding/hex"
 	"fmt"
 	"math/rand"
+	"reflect"
 	"sort"
 	"strconv"
 	"strings"
+	"unsafe"
 
 	"github.com/golang/snappy"
 
@@ -47,6 +56,7 @@ import (
 	"github.com/syndtr/goleveldb/leveldb/comparer"
 	lerrors "github.com/syndtr/goleveldb/leveldb/errors"
 	"github.com/syndtr/goleveldb/leveldb/filter"
+	"github.com/syndtr/goleveldb/leveldb/iterator"
 	"github.com/syndtr/goleveldb/leveldb/opt"
 	"github.com/syndtr/goleveldb/leveldb/storage"
 	"github.com/syndtr/goleveldb/leveldb/table"
@@ -517,6 +527,7 @@ func layout(file []byte) (bs []blk, ok bool) {
 type Stats struct {
 	Tables, MultiBlock, WithFilter, Big, FileBytes, ReadOps, Damaged, DamageOps, Known int
 	Compressed, CompressedBlocks, SnappyStreams, SnappyBad                             int
+	BiterWalks, BiterMoves, BiterSliced                                                int
 }
 
 // Run generates sz.Tables cases.
@@ -706,6 +717,9 @@ func one(seed int64, index int, sz Sizes, s *wp.Sink, st *Stats) {
 		}
 	}
 
+	// 3b. walks of the real blockIter (index block, data blocks; unsliced and sliced)
+	biterCases(c, file, blks, qs, r, s, st, viol)
+
 	// 4. single-byte damage inside checksummed blocks
 	if len(file) > sz.DamageMaxFile {
 		return
@@ -869,4 +883,296 @@ func snappyStream(r *rand.Rand, s *wp.Sink, st *Stats) {
 	s.Emit("tbl snappy "+hx(stream), want)
 	s.Count("snappy stream", kind+", "+mut)
 	st.SnappyStreams++
+}
+
+// ---- walks of the real table.blockIter versus the byte-level model (driver line `tbl biter …`) ----
+
+// seeker is what a walk needs of an iterator (iterator.Iterator and iterator.IteratorIndexer both have it).
+type seeker interface {
+	First() bool
+	Last() bool
+	Seek(key []byte) bool
+	Next() bool
+	Prev() bool
+	Valid() bool
+	Key() []byte
+	Value() []byte
+	Error() error
+}
+
+// indexSeeker: the table's indexIter (Key/Value come from its embedded *blockIter).
+type indexSeeker interface {
+	seeker
+	Get() iterator.Iterator
+}
+
+// indexOf returns the unexported `index` field of the *indexedIterator that Reader.NewIterator returns: the
+// table's indexIter, whose embedded *blockIter iterates the index block and whose Get() creates the blockIter of
+// the data block under the cursor.  Read-only use of reflect/unsafe; nil if the layout is not as expected.
+func indexOf(outer iterator.Iterator) (idx indexSeeker) {
+	defer func() {
+		if recover() != nil {
+			idx = nil
+		}
+	}()
+	rv := reflect.ValueOf(outer)
+	if rv.Kind() != reflect.Ptr || rv.Elem().Kind() != reflect.Struct {
+		return nil
+	}
+	f := rv.Elem().FieldByName("index")
+	if !f.IsValid() {
+		return nil
+	}
+	f = reflect.NewAt(f.Type(), unsafe.Pointer(f.UnsafeAddr())).Elem()
+	idx, _ = f.Interface().(indexSeeker)
+	return idx
+}
+
+func showPos(ok bool, it seeker) string {
+	var sb strings.Builder
+	if ok {
+		sb.WriteString("1:")
+	} else {
+		sb.WriteString("0:")
+	}
+	if it.Valid() {
+		sb.WriteString(hx(it.Key()) + "=" + hx(it.Value()))
+	} else {
+		sb.WriteString(".")
+	}
+	if err := it.Error(); err != nil {
+		if lerrors.IsCorrupted(err) {
+			sb.WriteString("!corrupt")
+		} else {
+			sb.WriteString("!err(" + strings.ReplaceAll(err.Error(), " ", "_") + ")")
+		}
+	}
+	return sb.String()
+}
+
+// walk makes n random moves on it (after the moves `pre`, already made by the caller, whose answers are taken
+// now) and returns the moves and the answers; bad is set when a returned Boolean differs from Valid().
+func walk(it seeker, r *rand.Rand, qs [][]byte, n, burst int) (moves, answers []string, bad string) {
+	do := func(m string) {
+		var ok bool
+		func() {
+			defer func() {
+				if p := recover(); p != nil {
+					answers = append(answers, strings.ReplaceAll(fmt.Sprintf("PANIC(%v)", p), " ", "_"))
+					ok = false
+					bad = "panic on " + m
+				}
+			}()
+			switch m[0] {
+			case 'F':
+				ok = it.First()
+			case 'L':
+				ok = it.Last()
+			case 'N':
+				ok = it.Next()
+			case 'P':
+				ok = it.Prev()
+			case 'S':
+				ok = it.Seek(unhex(m[2:]))
+			}
+			answers = append(answers, showPos(ok, it))
+			if ok != it.Valid() && bad == "" {
+				bad = fmt.Sprintf("move %d (%s) returned %v but Valid() = %v", len(moves), m, ok, it.Valid())
+			}
+		}()
+		moves = append(moves, m)
+	}
+	for len(moves) < n && bad == "" {
+		switch x := r.Intn(100); {
+		case x < 22:
+			do("N")
+		case x < 44:
+			do("P")
+		case x < 52: // a run in one direction, often past the end and beyond
+			m := "N"
+			if r.Intn(2) == 0 {
+				m = "P"
+			}
+			for k := 1 + r.Intn(burst); k > 0 && bad == ""; k-- {
+				do(m)
+			}
+		case x < 60:
+			do("F")
+		case x < 68:
+			do("L")
+		case x < 72: // Next after Last, Prev after First
+			if r.Intn(2) == 0 {
+				do("L")
+				do("N")
+				if r.Intn(2) == 0 {
+					do("N")
+				}
+				do("P")
+			} else {
+				do("F")
+				do("P")
+				if r.Intn(2) == 0 {
+					do("P")
+				}
+				do("N")
+			}
+		default: // Seek, half of the time followed by Prev
+			do("S:" + hx(qs[r.Intn(len(qs))]))
+			if r.Intn(2) == 0 && bad == "" {
+				do("P")
+			}
+		}
+	}
+	return
+}
+
+func sliceTok(sl *util.Range, incl bool) string {
+	a, b := "nil", "nil"
+	if sl.Start != nil {
+		a = hx(sl.Start)
+	}
+	if sl.Limit != nil {
+		b = hx(sl.Limit)
+	}
+	if incl {
+		return "s:" + a + ":" + b + ":1"
+	}
+	return "s:" + a + ":" + b + ":0"
+}
+
+// biterCases: random walks on the real blockIter of the index block and of data blocks.
+func biterCases(c *Case, file []byte, blks []blk, qs [][]byte, r *rand.Rand, s *wp.Sink, st *Stats, viol func(sig, format string, a ...interface{})) {
+	rd, err := table.NewReader(bytes.NewReader(file), int64(len(file)), storage.FileDesc{Type: storage.TypeTable, Num: 1}, nil, nil, c.options())
+	if err != nil {
+		return
+	}
+	defer rd.Release()
+	var dataBlks []blk
+	var indexBlk blk
+	for _, b := range blks {
+		switch b.kind {
+		case 'd':
+			dataBlks = append(dataBlks, b)
+		case 'i':
+			indexBlk = b
+		}
+	}
+	indexHex := hx(rawBlock(file, indexBlk.off, indexBlk.ln))
+	emit := func(what string, ri int, blockHex, tok string, moves, answers []string, bad string) {
+		line := fmt.Sprintf("tbl biter %s %d %s", c.Cmp, ri, blockHex)
+		if tok != "" {
+			line += " " + tok
+			st.BiterSliced++
+			s.Count("blockIter walk", what+", sliced")
+		} else {
+			s.Count("blockIter walk", what+", whole block")
+		}
+		s.Emit(line+" "+strings.Join(moves, " "), strings.Join(answers, " "))
+		st.BiterWalks++
+		st.BiterMoves += len(moves)
+		if bad != "" {
+			viol("blockiter-bool", "%s blockIter %s: %s", what, tok, bad)
+		}
+		for _, a := range answers {
+			if strings.Contains(a, "!") || strings.HasPrefix(a, "PANIC") {
+				viol("blockiter-error", "%s blockIter %s on an intact block answers %s", what, tok, a)
+				break
+			}
+		}
+	}
+	randSlice := func() *util.Range {
+		a, b := qs[r.Intn(len(qs))], qs[r.Intn(len(qs))]
+		if bytes.Compare(a, b) > 0 && r.Intn(4) != 0 { // one in four inverted pairs stays inverted
+			a, b = b, a
+		}
+		sl := &util.Range{Start: a, Limit: b}
+		switch r.Intn(4) {
+		case 0:
+			sl.Start = nil
+		case 1:
+			sl.Limit = nil
+		}
+		if c.N == 0 && sl.Start != nil { // known finding: empty table, non-nil Start
+			sl.Start = nil
+		}
+		return sl
+	}
+	burst := 2*c.RI + 3
+	for rep := 0; rep < 3; rep++ {
+		var sl *util.Range
+		if rep > 0 {
+			sl = randSlice()
+		}
+		// a. the index block
+		outer := rd.NewIterator(sl, nil)
+		idx := indexOf(outer)
+		if idx == nil {
+			outer.Release()
+			s.Note("C13: the index field of the table iterator is not reachable; blockIter walks are skipped")
+			return
+		}
+		tok := ""
+		if sl != nil {
+			tok = sliceTok(sl, true)
+		}
+		mv, an, bad := walk(idx, r, qs, 30+r.Intn(30), 4)
+		emit("index", 1, indexHex, tok, mv, an, bad)
+		// b. data blocks: position the index, take a fresh data blockIter from Get()
+		var hFirst, hLast []byte
+		if idx.First() {
+			hFirst = append([]byte{}, idx.Value()...)
+		}
+		if idx.Last() {
+			hLast = append([]byte{}, idx.Value()...)
+		}
+		for _, how := range []string{"F", "L", "S"} {
+			var ok bool
+			switch how {
+			case "F":
+				ok = idx.First()
+			case "L":
+				ok = idx.Last()
+			default:
+				ok = idx.Seek(qs[r.Intn(len(qs))])
+			}
+			if !ok {
+				continue
+			}
+			h := append([]byte{}, idx.Value()...)
+			off, ln := parseHandle(h)
+			known := false
+			for _, b := range dataBlks {
+				if b.off == off && b.ln == ln {
+					known = true
+				}
+			}
+			if !known {
+				viol("blockiter-handle", "index entry does not name a data block: %d:%d", off, ln)
+				continue
+			}
+			dtok := ""
+			if sl != nil && (bytes.Equal(h, hFirst) || bytes.Equal(h, hLast)) {
+				dtok = sliceTok(sl, false)
+			}
+			data := idx.Get()
+			if data == nil {
+				continue
+			}
+			mv, an, bad := walk(data, r, qs, 30+r.Intn(40), burst)
+			data.Release()
+			emit("data", c.RI, hx(rawBlock(file, off, ln)), dtok, mv, an, bad)
+		}
+		outer.Release()
+		// c. single data block: the same walk through the public iterator only
+		if len(dataBlks) == 1 {
+			pub := rd.NewIterator(sl, nil)
+			mv, an, bad := walk(pub, r, qs, 30+r.Intn(40), burst)
+			pub.Release()
+			ptok := ""
+			if sl != nil {
+				ptok = sliceTok(sl, false)
+			}
+			emit("public single-block", c.RI, hx(rawBlock(file, dataBlks[0].off, dataBlks[0].ln)), ptok, mv, an, bad)
+		}
+	}
 }
